@@ -23,6 +23,9 @@ Bind(s, a, eph, ok) ==
      /\ ok = ~Conflict(Typ[s], a, p, s)
      /\ IF ok THEN st' = [st EXCEPT ![s] = "bound"] /\ held' = [held EXCEPT ![s] = <<Typ[s], a, p>>]
         ELSE UNCHANGED <<st, held>>
+\* a bind to an address that is not assigned to any interface fails and must leave nothing reserved (the port was reserved
+\* before the address check: the unwind has to release it)
+BindForeign(s, eph) == Step /\ st[s] = "init" /\ UNCHANGED <<st, held>>
 \* UDP connect: unbound -> reserves (route address, ephemeral); bound -> keeps its reservation
 Connect(s) ==
   /\ Step /\ Typ[s] = "udp" /\ st[s] \in {"init", "bound", "conn"}
@@ -41,7 +44,7 @@ TcpConnect(s) ==
 Listen(s) == Step /\ Typ[s] = "tcp" /\ st[s] = "bound" /\ st' = [st EXCEPT ![s] = "listen"] /\ UNCHANGED held
 Close(s) == Step /\ st[s] # "closed" /\ st' = [st EXCEPT ![s] = "closed"] /\ held' = [held EXCEPT ![s] = None]
 Next == \E s \in Socks : \/ \E a \in LAddrs \cup {AnyA}, e \in BOOLEAN, ok \in BOOLEAN : Bind(s, a, e, ok)
-                         \/ Connect(s) \/ TcpConnect(s) \/ WriteTo(s) \/ Listen(s) \/ Close(s)
+                         \/ (\E e \in BOOLEAN : BindForeign(s, e)) \/ Connect(s) \/ TcpConnect(s) \/ WriteTo(s) \/ Listen(s) \/ Close(s)
 Spec == Init /\ [][Next]_vars
 Exclusive == \A s, t \in Socks : (s # t /\ held[s] # None /\ held[t] # None /\ held[s][1] = held[t][1] /\ held[s][3] = held[t][3])
                 => (held[s][2] # AnyA /\ held[t][2] # AnyA /\ held[s][2] # held[t][2])
